@@ -353,7 +353,14 @@ func NewSugarDB(options ...func(sugarDB *SugarDB)) (*SugarDB, error) {
 				case <-ticker.C:
 					// Run key eviction for each database that has volatile keys.
 					wg := sync.WaitGroup{}
-					for database, _ := range sugarDB.keysWithExpiry.keys {
+					// (The map is written by commands: it is only read under its lock.)
+					sugarDB.keysWithExpiry.rwMutex.RLock()
+					databases := make([]int, 0, len(sugarDB.keysWithExpiry.keys))
+					for database := range sugarDB.keysWithExpiry.keys {
+						databases = append(databases, database)
+					}
+					sugarDB.keysWithExpiry.rwMutex.RUnlock()
+					for _, database := range databases {
 						wg.Add(1)
 						ctx := context.WithValue(context.Background(), "Database", database)
 						go func(ctx context.Context, wg *sync.WaitGroup) {
